@@ -15,6 +15,7 @@
 #include "common.h"
 #include "ops.h"
 #include <zlib.h>
+#include <stdarg.h>
 
 static uint32_t rd32(const unsigned char *p) { uint32_t v; memcpy(&v, p, 4); return v; }
 static void wr32(unsigned char *p, uint32_t v) { memcpy(p, &v, 4); }
@@ -151,4 +152,122 @@ void suite_cat(int tier) {
         stat_add("cat.stripes", 1);
     }
     if (g_isal) cat_stripe((cfg_t){ 4, 3, 2, 2, 2 }, 40 + rnd(9), 0, tier, 1);
+}
+
+
+/* ======================================================================= grid
+ * shapes at and around every boundary x lengths at and around every boundary, direct oracles of several
+ * properties on each cell (no model lines).  The per-property suites sample these two dimensions independently;
+ * a change that is wrong for ONE shape class at ONE length class (k % 4 == 3 with an odd block, m == 1, payloads
+ * of exactly 2^20 bytes, k+m = 32 with one byte) falls between them.  A failure is reported for the property
+ * whose clause it contradicts. */
+void xor_fixed_equations(stripe_t *s);
+
+static void grid_fail(const char *props, const char *fmt, ...) {
+    char msg[400]; va_list ap; va_start(ap, fmt); vsnprintf(msg, sizeof msg, fmt, ap); va_end(ap);
+    char tmp[64]; strncpy(tmp, props, 63); tmp[63] = 0;
+    for (char *t = strtok(tmp, ","); t; t = strtok(NULL, ",")) oracle_fail(t, "%s", msg);
+}
+
+static void grid_cell(cfg_t c, size_t len, int kind) {
+    stripe_t s; memset(&s, 0, sizeof s);
+    s.c = c; s.desc = cfg_desc(c);
+    if (s.desc <= 0) { grid_fail("C13", "grid: create refused for be=%d (%d,%d,%d)", c.be, c.k, c.m, c.hd); return; }
+    s.len = len; s.data = malloc(len ? len : 1);
+    switch (kind) { case 0: for (size_t i = 0; i < len; i++) s.data[i] = (unsigned char)rnd64(); break;
+                    case 1: memset(s.data, 0xff, len); break;
+                    case 2: for (size_t i = 0; i < len; i++) s.data[i] = (unsigned char)(i * 131 + (i >> 8)); break;
+                    default: memset(s.data, 'x', len); break; }
+    int rc = liberasurecode_encode(s.desc, (char *)s.data, len, &s.ed, &s.ep, &s.flen);
+    if (rc != 0) { grid_fail("C01,C13", "grid: encode of %zu bytes failed (%d): be=%d (%d,%d,%d)", len, rc, c.be, c.k, c.m, c.hd); free(s.data); return; }
+    s.n = c.k + c.m; s.all = malloc(sizeof(char *) * s.n);
+    for (int i = 0; i < c.k; i++) s.all[i] = s.ed[i];
+    for (int i = 0; i < c.m; i++) s.all[c.k + i] = s.ep[i];
+    size_t bs = s.flen - HDR; int wb = cfg_wbytes(c); size_t unit = (size_t)c.k * wb;
+    /* C08 */
+    int fsz = liberasurecode_get_fragment_size(s.desc, (int)len), asz = liberasurecode_get_aligned_data_size(s.desc, len), msz = liberasurecode_get_minimum_encode_size(s.desc);
+    size_t want_al = (len + unit - 1) / unit * unit;
+    if ((size_t)fsz != bs || (size_t)asz != want_al || (size_t)msz != unit)
+        grid_fail("C08", "grid: be=%d (%d,%d,%d) len=%zu: fragment_size %d (payload is %zu), aligned %d (least multiple of %zu is %zu), minimum %d", c.be, c.k, c.m, c.hd, len, fsz, bs, asz, unit, want_al, msz);
+    if (bs * (size_t)c.k != want_al && c.be != 0) grid_fail("C07,C08", "grid: be=%d (%d,%d,%d) len=%zu: k payloads of %zu bytes are not the aligned length %zu", c.be, c.k, c.m, c.hd, len, bs, want_al);
+    /* C07 / C10: header fields, systematic split, stored checksum */
+    for (int i = 0; i < s.n; i++) {
+        const unsigned char *f = (unsigned char *)s.all[i];
+        uint64_t o; memcpy(&o, f + 12, 8);
+        if (rd32(f) != (uint32_t)i || rd32(f + 4) != bs || o != len || rd32(f + 59) != 0x0b0c5ecc || f[20] != c.ct || f[54] != c.be)
+            grid_fail("C07", "grid: be=%d (%d,%d,%d) len=%zu: header of fragment %d (idx %u size %u orig %llu ct %u be %u)", c.be, c.k, c.m, c.hd, len, i, rd32(f), rd32(f + 4), (unsigned long long)o, f[20], f[54]);
+        if (rd32(f + 67) != (uint32_t)crc32(0, f, 59)) grid_fail("C07,C09", "grid: be=%d (%d,%d,%d) len=%zu: metadata CRC of fragment %d", c.be, c.k, c.m, c.hd, len, i);
+        for (int z = 71; z < 80; z++) if (f[z]) { grid_fail("C07", "grid: padding byte %d of fragment %d not zero", z, i); break; }
+        if (c.ct == 2 && rd32(f + 21) != (uint32_t)crc32(0, f + HDR, (uInt)bs)) grid_fail("C10", "grid: be=%d (%d,%d,%d) len=%zu: stored checksum of fragment %d is not the CRC of its %zu payload bytes", c.be, c.k, c.m, c.hd, len, i, bs);
+        if (i < c.k) {
+            size_t off = (size_t)i * bs, have = off < len ? (len - off < bs ? len - off : bs) : 0;
+            int bad = have && memcmp(f + HDR, s.data + off, have);
+            for (size_t z = have; z < bs && !bad; z++) if (f[HDR + z]) bad = 1;
+            if (bad) grid_fail("C07", "grid: be=%d (%d,%d,%d) len=%zu: data fragment %d is not bytes [%zu,%zu) of the input, zero padded", c.be, c.k, c.m, c.hd, len, i, off, off + bs);
+        }
+        if (is_invalid_fragment(s.desc, (char *)f)) grid_fail("C12,C10", "grid: be=%d (%d,%d,%d) len=%zu: fresh fragment %d reported invalid", c.be, c.k, c.m, c.hd, len, i);
+    }
+    /* C04 / C05: first RS parity = XOR of the data; flat XOR: the fixed equations */
+    if (c.be == 6 && c.m >= 1) {
+        unsigned char *acc = calloc(1, bs ? bs : 1);
+        for (int i = 0; i < c.k; i++) for (size_t b = 0; b < bs; b++) acc[b] ^= (unsigned char)s.all[i][HDR + b];
+        if (memcmp(acc, s.all[c.k] + HDR, bs)) grid_fail("C04", "grid: rs_vand (%d,%d) len=%zu: the first parity is not the XOR of the data fragments", c.k, c.m, len);
+        free(acc);
+    }
+    if (c.be == 3) xor_fixed_equations(&s);
+    if (c.be != 0) {
+        int tol = cfg_tolerance(c);
+        /* C01: nothing missing (shuffled), one data, last data + first parity, as many as tolerated (data first) */
+        uint64_t pats[5]; int np = 0;
+        pats[np++] = 0; if (tol >= 1) { pats[np++] = 1; pats[np++] = 1ull << (c.k - 1); }
+        if (tol >= 2 && c.m >= 1) pats[np++] = (1ull << (c.k - 1)) | (1ull << c.k);
+        if (tol >= 2) { uint64_t g = 0; for (int i = 0; i < tol && i < s.n; i++) g |= 1ull << i; pats[np++] = g; }
+        for (int q = 0; q < np; q++) {
+            sweep_dec(&s, pats[q], q & 1, q != 1, 0, "C01");
+            if (pats[q]) { int lo = __builtin_ctzll(pats[q]), hi = 63 - __builtin_clzll(pats[q]); sweep_rec(&s, pats[q], lo, 0, "C03"); if (hi != lo) sweep_rec(&s, pats[q], hi, 0, "C03"); }
+        }
+        /* every single fragment rebuilt alone at the extremes of the index range */
+        int ends[4] = { 0, c.k - 1, c.k, s.n - 1 };
+        if (tol >= 1) for (int q = 0; q < 4; q++) if (ends[q] >= 0 && ends[q] < s.n) sweep_rec(&s, 1ull << ends[q], ends[q], 0, "C03");
+        /* C06 */
+        if (tol >= 1) { int r[2] = { c.k - 1, -1 }, x[1] = { -1 }, o[70]; memset(o, 0xff, sizeof o);
+            int rn = liberasurecode_fragments_needed(s.desc, r, x, o);
+            int bad = rn != 0; for (int i = 0; !bad && i < 70 && o[i] != -1; i++) if (o[i] < 0 || o[i] >= s.n || o[i] == c.k - 1) bad = 1;
+            if (bad) grid_fail("C06", "grid: be=%d (%d,%d,%d): fragments_needed for [%d] failed or returned an unusable list (%d)", c.be, c.k, c.m, c.hd, c.k - 1, rn); }
+    }
+    if (liberasurecode_verify_stripe_metadata(s.desc, s.all, s.n) != 0) grid_fail("C12", "grid: be=%d (%d,%d,%d): stripe of fresh fragments rejected", c.be, c.k, c.m, c.hd);
+    stat_add("grid.cells", 1);
+    stripe_free(&s);
+}
+
+void suite_grid(int tier) {
+    static const cfg_t shapes[] = {
+        {6,1,1,1,2}, {6,2,1,1,2}, {6,3,1,1,2}, {6,1,3,3,2}, {6,3,0,0,2}, {6,3,2,2,2}, {6,4,2,2,2}, {6,7,3,3,2}, {6,10,4,4,2}, {6,11,5,5,2},
+        {6,15,2,2,2}, {6,16,4,4,2}, {6,16,16,16,2}, {6,28,4,4,2}, {6,31,1,1,2}, {6,1,31,31,2}, {6,5,8,8,2},
+        {3,3,3,3,2}, {3,5,5,3,2}, {3,10,5,3,2}, {3,15,6,3,2}, {3,5,5,4,2}, {3,6,6,4,2}, {3,12,6,4,2}, {3,20,6,4,2}, {3,7,5,3,1},
+        {0,3,2,2,2}, {0,1,1,1,2} };
+    int ns = (int)(sizeof shapes / sizeof shapes[0]);
+    for (int si = 0; si < ns; si++) {
+        cfg_t c = shapes[si]; size_t unit = (size_t)c.k * cfg_wbytes(c), k = (size_t)c.k;
+        size_t lens[] = { 0, 1, k > 1 ? k - 1 : 2, k, k + 1, unit, unit - 1, unit + 1, 2 * unit + 1, 3 * k, 5 * k, 7 * unit - 1,
+                          4096, 4095, 65536 * k, 65536 * k + 1, 65536 * k - 1, 4096 * k, 1000 * k + 3, 100003 };
+        int nl = (int)(sizeof lens / sizeof lens[0]);
+        for (int li = 0; li < nl; li++) {
+            if (!tier && c.k > 16 && lens[li] > 300000) continue;
+            grid_cell(c, lens[li], (si + li) % 4);
+        }
+        /* exactly 2^20 (and 2^20 +- 1) bytes of payload per fragment for the narrow shapes */
+        if (c.k <= 3 || tier) { grid_cell(c, ((size_t)1 << 20) * k, 0); if (c.k <= 2) { grid_cell(c, ((size_t)1 << 20) * k + 1, 2); grid_cell(c, ((size_t)1 << 20) * k - 1, 1); } }
+        stat_add("grid.shapes", 1);
+    }
+    if (g_isal) {
+        static const cfg_t is[] = { {4,4,2,2,2}, {4,10,4,4,2}, {7,5,3,3,2}, {4,1,1,1,2}, {7,16,4,4,2}, {4,28,4,4,2}, {7,2,5,5,2}, {4,7,3,3,2} };
+        for (unsigned si = 0; si < sizeof is / sizeof is[0]; si++) {
+            cfg_t c = is[si]; size_t k = (size_t)c.k;
+            size_t lens[] = { 0, 1, k, k + 1, k - (k > 1), 3 * k, 4096, 4095, 65536 * k, 65536 * k + 1, 1000 * k + 3 };
+            for (unsigned li = 0; li < sizeof lens / sizeof lens[0]; li++) grid_cell(c, lens[li], (int)((si + li) % 4));
+            if (c.k <= 2) grid_cell(c, ((size_t)1 << 20) * k, 0);
+            stat_add("grid.shapes", 1);
+        }
+    }
 }
